@@ -21,7 +21,7 @@ func init() {
 				continue
 			}
 			t0 := time.Now()
-			ws, st := kit.FindCrashes(c.P, f, 0)
+			ws, st := kit.FindCrashes(c.P, f, 0, nil)
 			fmt.Printf("%-40s runs=%d steps=%d exhausted=%v crashes=%d %.2fs\n", f.Name, st.Runs, st.Steps, st.Exhausted, len(ws), time.Since(t0).Seconds())
 			for n, w := range ws {
 				fmt.Printf("   CRASH %s %s: %s [%s]\n", f.At(n), f.Str(n), w.Msg, w.Inputs)
